@@ -667,6 +667,8 @@ func (c *CreateIndexStatement) Format(opts FormatOptions) string {
 		}
 		if col.NullsLast {
 			s += " " + f.kw("NULLS LAST")
+		} else if col.NullsFirst {
+			s += " " + f.kw("NULLS FIRST")
 		}
 		cols[i] = s
 	}
